@@ -677,3 +677,23 @@ Theorem joined_table_sorted :
   (forall x, In x (l_T down) -> x < T0) /\ (forall x, In x (l_T up) -> T0 <= x).
 Proof. intros Fld Hess. exact (@joined_table_sorted_lemma Fld Hess). Qed.
 Print Assumptions joined_table_sorted.
+
+(** the two-field oracle family: the axis phase (0,b) is a minimum exactly when the curvature
+    in the other direction and -2 mub are positive; positive definiteness (hence the spinodal
+    temperature) is the same in every rotated field basis *)
+Theorem two_field_axis_phase :
+  forall mua mub la lb lab b, 0 < lb -> lb * b ^ 2 = - mub ->
+  zga mua la lab 0 b = 0 /\ zgb mub lb lab 0 b = 0 /\ zHab lab 0 b = 0 /\
+  zHaa mua la lab 0 b = mua - lab * mub / (2 * lb) /\ zHbb mub lb lab 0 b = - 2 * mub /\
+  (posdef2 (zHaa mua la lab 0 b) (zHab lab 0 b) (zHbb mub lb lab 0 b) <->
+   0 < mua - lab * mub / (2 * lb) /\ 0 < - mub).
+Proof. intros. apply z2_phase_B; assumption. Qed.
+Print Assumptions two_field_axis_phase.
+
+Theorem positive_definiteness_is_basis_independent :
+  forall a b c co si, co ^ 2 + si ^ 2 = 1 ->
+  posdef2 (co ^ 2 * a - 2 * co * si * b + si ^ 2 * c)
+          (co * si * (a - c) + (co ^ 2 - si ^ 2) * b)
+          (si ^ 2 * a + 2 * co * si * b + co ^ 2 * c) <-> posdef2 a b c.
+Proof. intros a b c co si H. exact (posdef2_rotation a b c co si H). Qed.
+Print Assumptions positive_definiteness_is_basis_independent.
